@@ -466,6 +466,16 @@ func blameShared(e *tbl.Expr, shared []snap.SharedItem) (string, snap.SharedItem
 			return n.Comb(), best
 		}
 	}
+	// storage behind a map key that no probe explains: the map did not apply its key instance
+	toks := tbl.Tokens(best.PathB)
+	for k := len(toks) - 1; k >= 0; k-- {
+		if toks[k] != "{key}" {
+			continue
+		}
+		if at, _ := e.Tree.NodeAt(strings.Join(toks[:k], "")); at != nil && (at.Comb() == "GoMap" || at.Label == "Generic:Dict") {
+			return "GoMap", best
+		}
+	}
 	if alloc.Parent != nil {
 		return alloc.Parent.Comb(), best
 	}
@@ -564,6 +574,14 @@ func runValueCase(w *vrt.W, i int, loc *local, e *tbl.Expr, vg *vgen) {
 	w.Begin(i, site)
 	orig := reflect.New(e.Typ).Elem()
 	vg.fill(orig)
+	if strings.HasPrefix(e.Name, "fork") {
+		// an instance value that other table expressions were derived from / that was derived
+		// from one (package exf): "fork<group>.<nn>/<role>@<level>:<expression>"
+		loc.add("fork.values", 1)
+		if a, c := strings.IndexByte(e.Name, '@'), strings.IndexByte(e.Name, ':'); a > 0 && c > a {
+			loc.add("fork.values_of_an_instance_derived_in_"+e.Name[a+1:c]+"_steps", 1)
+		}
+	}
 	if h := vg.hint; h != nil {
 		switch {
 		case !h.used:
@@ -790,12 +808,14 @@ func main() {
 			}
 			w.Add("expressions_in_table", 0)
 		},
-		Rule: "case = (instance expression, value). The expressions are a compiled-in table (c18/exprs_gen.go, written by c18/gen): all leaves, every combinator directly over every combinator, all triples of Ptr/Slice/Seq/GoMap/Option, every Tuple arity 2..21 with a mutable component in every position (also under Ptr and in a Slice), hlists of length 1..8, Generic over struct/newtype/array/named-map representations with every field position mutable, GoMap KEY instances that must deep-copy (pointer keys incl. pointer to struct / pointer to pointer, pointers nested in Tuple2/Tuple3/Option/hlist keys, struct and array keys through Generic) at map depths 0..4, as map values and below every other combinator, and PRNG expressions of combinator depth ≤ 5 (a third of their maps with such a key instance); case g uses expression g mod table size, so every expression gets the same number of values. The value is built reflectively from the case PRNG: nil / empty (with and without backing array) / short slices and maps, nil pointers, None, NaN/-0, and internal aliasing (the same pointer, slice or map used twice, overlapping sub-slices of one array, pointers into a slice's array). Oracles: snapshot equality with nil ≡ empty; no overlap between the memory ranges of pointer targets / slice arrays (cap>0) and no common Go map reachable from original and clone (zero-sized targets are skipped); overwriting every location reachable from the clone — including the pointer targets behind map keys — leaves the original's snapshot unchanged and vice versa. Map keys are walked like every other component (path token {key}); mutpos.<combinator>.<i> counts the values of expressions in which component position i holds something that needs a deep copy (GoMap.0 = the key instance), with a floor for every position of the grammar. distinct_nontrivial counts distinct (expression, value snapshot) pairs whose value really has ≥ 2 levels of indirection (pointer hops / descents into non-empty slices or maps on one path), measured by the walker on the generated value.",
+		Rule: "case = (instance expression, value). The expressions are a compiled-in table (c18/exprs_gen.go, written by c18/gen): all leaves, every combinator directly over every combinator, all triples of Ptr/Slice/Seq/GoMap/Option, every Tuple arity 2..21 with a mutable component in every position (also under Ptr and in a Slice), hlists of length 1..8, Generic over struct/newtype/array/named-map representations with every field position mutable, GoMap KEY instances that must deep-copy (pointer keys incl. pointer to struct / pointer to pointer, pointers nested in Tuple2/Tuple3/Option/hlist keys, struct and array keys through Generic) at map depths 0..4, as map values and below every other combinator, and PRNG expressions of combinator depth ≤ 5 (a third of their maps with such a key instance); case g uses expression g mod table size, so every expression gets the same number of values. The value is built reflectively from the case PRNG: nil / empty (with and without backing array) / short slices and maps, nil pointers, None, NaN/-0, and internal aliasing (the same pointer, slice or map used twice, overlapping sub-slices of one array, pointers into a slice's array). Oracles: snapshot equality with nil ≡ empty; no overlap between the memory ranges of pointer targets / slice arrays (cap>0) and no common Go map reachable from original and clone (zero-sized targets are skipped); overwriting every location reachable from the clone — including the pointer targets behind map keys — leaves the original's snapshot unchanged and vice versa. Map keys are walked like every other component (path token {key}); mutpos.<combinator>.<i> counts the values of expressions in which component position i holds something that needs a deep copy (GoMap.0 = the key instance), with a floor for every position of the grammar. distinct_nontrivial counts distinct (expression, value snapshot) pairs whose value really has ≥ 2 levels of indirection (pointer hops / descents into non-empty slices or maps on one path), measured by the walker on the generated value. The table also holds 120 expressions of package exf in which ONE sub-instance value is handed to several combinators (chains of 1..9 successive derivations over six bases, three more derivations of every chain member, the same value twice in one product): they are used like every other expression, in every batch. Two more batch families follow the classic ones. SIZED batches: the first map / map whose key type holds storage / []T / fp.Seq that the depth-first value builder meets in the expression's type gets exactly 0,1,7,8,9,15,16,17,31,32,33,63,64,65,100,128,129,257,1000 elements (nothing on the way to it is nil or empty, every element is built like any other component with a budget of four allocations; expression drawn by the PRNG among those whose type contains such a container); same three oracles. CONC batches (half of them in the -race build, DATA RACEs with a frame inside csgura/fp are violations race/<location>): 4..32 goroutines released together clone their own private values (drawn beforehand from the case PRNG) through ONE table instance, with PRNG runtime.Gosched() yields; afterwards every clone must equal the snapshot of its own original, no original may have changed, and no storage may be reachable from two different clones or from a clone and any original; a failure that the sequential control (same values, same instance) does not show is keyed clone.<combinator>/concurrent-use-differs.",
 		Assumptions: []string{
 			"Given is only used on value types (no pointers, slices or maps inside): it is the identity by design",
 			"instance expressions are a fixed compiled-in sample of the expression language (Go cannot instantiate generics at run time); the tiers differ in the number of values per expression",
 			"string data is immutable and is not counted as shared storage; zero-sized pointer targets have no storage",
 			"the fp.Generic To/From functions supplied by the harness are plain field copies",
+			"NaN map keys are not generated (no key type of the table holds a float): a NaN key can be neither looked up nor overwritten, so the reference could not model it",
+			"a Clone instance is a value that may be used by any number of goroutines at once, each on its own values (instances are package-level variables in derived code)",
 			"a map key cannot be overwritten in place: the behavioural oracle writes through the pointers inside keys and leaves the key values themselves alone; two distinct pointer keys with equal targets are two entries on both sides (snapshot entries are sorted by rendered key, then value)",
 		},
 		Floors: func(tier string) map[string]int64 {
@@ -830,6 +850,11 @@ func main() {
 				for _, n := range sizedLens {
 					f["sized."+k+"."+strconv.Itoa(n)] = 5
 				}
+			}
+			// instance values shared by several table expressions (package exf), 0..10 derivations deep
+			f["fork.values"] = 15000
+			for k := 0; k <= 10; k++ {
+				f["fork.values_of_an_instance_derived_in_"+strconv.Itoa(k)+"_steps"] = 200
 			}
 			// one instance value used by many goroutines at once
 			f["conc.cases"] = 500
